@@ -904,14 +904,17 @@ func (fg *FG) appendOp(st *State, s, t Val, in ssa.Instruction) Val {
 	base := fg.define("app.base", "Int", fmt.Sprintf("(+ (s.off %s) (s.len %s))", s.T, s.T))
 	oldArr := fmt.Sprintf("(select %s (s.arr %s))", h, s.T)
 	inpl := fg.fresh("app.inpl", inner)
-	fg.assume(fmt.Sprintf("(forall ((x Int)) (! (= (select %s x) (ite (and (<= %s x) (< x (+ %s %s))) %s (select %s x))) :pattern ((select %s x))))",
-		inpl, base, base, n, srcAt(fmt.Sprintf("(- x %s)", base)), oldArr, inpl))
+	fg.assume(fmt.Sprintf("(forall ((x Int)) (! (= (select %s x) (ite (and (<= %s x) (< x (+ %s %s))) %s (select %s x))) :pattern ((select %s x)) :pattern ((select %s x))))",
+		inpl, base, base, n, srcAt(fmt.Sprintf("(- x %s)", base)), oldArr, inpl, oldArr))
 	// fresh array
 	r := fg.allocRef(st)
 	fg.assume(fmt.Sprintf("(> %s 0)", r))
 	na := fg.fresh("app.new", inner)
 	fg.assume(fmt.Sprintf("(forall ((x Int)) (! (=> (and (<= 0 x) (< x %s)) (= (select %s x) (ite (< x (s.len %s)) (select %s (+ (s.off %s) x)) %s))) :pattern ((select %s x))))",
 		newLen, na, s.T, oldArr, s.T, srcAt(fmt.Sprintf("(- x (s.len %s))", s.T)), na))
+	// the same copy stated from the old array's side, so that a known old element finds its new place
+	fg.assume(fmt.Sprintf("(forall ((y Int)) (! (=> (and (<= (s.off %s) y) (< y (+ (s.off %s) (s.len %s)))) (= (select %s (- y (s.off %s))) (select %s y))) :pattern ((select %s y))))",
+		s.T, s.T, s.T, na, s.T, oldArr, oldArr))
 	ncap := fg.fresh("app.cap", "Int")
 	fg.assume(fmt.Sprintf("(>= %s %s)", ncap, newLen))
 	// frame: in-place writes hit the spare capacity of s
@@ -925,6 +928,11 @@ func (fg *FG) appendOp(st *State, s, t Val, in ssa.Instruction) Val {
 	}
 	fg.setHeap(st, fam, fmt.Sprintf("(ite %s (store %s (s.arr %s) %s) (store %s %s %s))", fits, h, s.T, inpl, h, r, na))
 	res := fg.define("app.res", "Slice", fmt.Sprintf("(ite %s (mk-slice (s.arr %s) (s.off %s) %s (s.cap %s)) (mk-slice %s 0 %s %s))", fits, s.T, s.T, newLen, s.T, r, newLen, ncap))
+	// ground consequences of the definition (they give the matcher the terms it needs): the result's
+	// backing array is one of the two arrays above, and the first appended element sits at len(s)
+	nh := fg.heap(st, fam, srt)
+	fg.assume(fmt.Sprintf("(= (select %s (s.arr %s)) (ite %s %s %s))", nh, res, fits, inpl, na))
+	fg.assume(fmt.Sprintf("(=> (>= %s 1) (= (select (select %s (s.arr %s)) (+ (s.off %s) (s.len %s))) %s))", n, nh, res, res, s.T, srcAt("0")))
 	return Val{T: res, Ty: s.Ty}
 }
 
